@@ -28,9 +28,13 @@
 (* Strings.tla.  "named" = a defined Go type with that underlying type     *)
 (* (type T int64 / float64 / string / bool).                               *)
 (*                                                                         *)
-(* STAGE 2 extension point: struct-mapped objects add                      *)
-(*   [k |-> "struct", t |-> CatalogId, v |-> <<<<field, Opt(val)>>..>>]    *)
-(* and map-based objects are ordinary "map" values with rep "string_any".  *)
+(* Struct-mapped objects (harness/catalog) are                             *)
+(*   [k |-> "struct", t |-> LayoutId, v |-> <<<<property, Opt(val)>>..>>]  *)
+(* one pair per DECLARED property, in the order of the schema's property   *)
+(* list: None = nil pointer / nil interface field, Some(x) = the field's   *)
+(* value (a by-value field always has one: its zero value when nothing was *)
+(* assigned).  Map-based objects are ordinary "map" values with rep        *)
+(* "string_any" (map[string]any).                                          *)
 (***************************************************************************)
 EXTENDS Integers, Sequences, FiniteSets, TLC
 
@@ -81,7 +85,8 @@ M(rep, ps) == [k |-> "map", rep |-> rep, v |-> ps]
 Re(t) == [k |-> "re", v |-> t]
 J(c) == [k |-> "junk", v |-> c]
 
-Kinds == {"nil", "bool", "int", "float", "fspecial", "str", "list", "map", "re", "junk"}
+Kinds == {"nil", "bool", "int", "float", "fspecial", "str", "list", "map", "re", "junk", "struct"}
+Struct(t, ps) == [k |-> "struct", t |-> t, v |-> ps]
 
 \* which integer representations can hold the point n (the narrow widths only in the
 \* identity region; around the limits the 32- and 64-bit ones, chosen so that at least one
@@ -108,6 +113,7 @@ WFV(x) ==
       [] x.k = "map" -> x.rep \in MapReps /\ \A i \in 1..Len(x.v) : WFV(x.v[i][1]) /\ WFV(x.v[i][2])
       [] x.k = "re" -> TRUE
       [] x.k = "junk" -> x.v \in JunkClasses
+      [] x.k = "struct" -> \A i \in 1..Len(x.v) : x.v[i][2].some => WFV(x.v[i][2].v)
 
 \* ------------------------------------------------------------------ decoder-producible shapes
 \* (C04: Unserialize and data-mode ValidateCompatibility are held to totality on these;
@@ -119,7 +125,7 @@ Decodable(x) ==
       [] x.k = "fspecial" -> TRUE
       [] x.k = "list" -> \A i \in 1..Len(x.v) : Decodable(x.v[i])
       [] x.k = "map" -> \A i \in 1..Len(x.v) : Decodable(x.v[i][1]) /\ Decodable(x.v[i][2])
-      [] x.k = "re" -> FALSE
+      [] x.k \in {"re", "struct"} -> FALSE
       [] x.k = "junk" -> x.v \in DecodableJunk
 
 \* ------------------------------------------------------------------ safe structural equality
@@ -130,6 +136,11 @@ EqV(a, b) ==
     ELSE CASE a.k = "nil" -> TRUE
            [] a.k \in {"bool", "int", "float", "fspecial", "str"} -> a.rep = b.rep /\ a.v = b.v
            [] a.k \in {"re", "junk"} -> a.v = b.v
+           [] a.k = "struct" ->
+                 /\ a.t = b.t /\ Len(a.v) = Len(b.v)
+                 /\ \A i \in 1..Len(a.v) :
+                        /\ a.v[i][1] = b.v[i][1] /\ a.v[i][2].some = b.v[i][2].some
+                        /\ a.v[i][2].some => EqV(a.v[i][2].v, b.v[i][2].v)
            [] a.k = "list" -> Len(a.v) = Len(b.v) /\ \A i \in 1..Len(a.v) : EqV(a.v[i], b.v[i])
            [] a.k = "map" ->
                  /\ Len(a.v) = Len(b.v)
@@ -142,11 +153,27 @@ RECURSIVE EqModRep(_, _)
 EqModRep(a, b) ==
     IF a.k # b.k THEN FALSE
     ELSE CASE a.k \in {"list"} -> Len(a.v) = Len(b.v) /\ \A i \in 1..Len(a.v) : EqModRep(a.v[i], b.v[i])
+           [] a.k = "struct" ->
+                 /\ a.t = b.t /\ Len(a.v) = Len(b.v)
+                 /\ \A i \in 1..Len(a.v) :
+                        /\ a.v[i][1] = b.v[i][1] /\ a.v[i][2].some = b.v[i][2].some
+                        /\ a.v[i][2].some => EqModRep(a.v[i][2].v, b.v[i][2].v)
            [] a.k = "map" ->
                  /\ Len(a.v) = Len(b.v)
                  /\ \A i \in 1..Len(a.v) : \E j \in 1..Len(b.v) : EqModRep(a.v[i][1], b.v[j][1]) /\ EqModRep(a.v[i][2], b.v[j][2])
                  /\ \A j \in 1..Len(b.v) : \E i \in 1..Len(a.v) : EqModRep(a.v[i][1], b.v[j][1]) /\ EqModRep(a.v[i][2], b.v[j][2])
            [] OTHER -> EqV(a, b)
+
+\* nesting depth of a value (bounds the unfolding of references, SchemaAST!Unfold)
+Max2(a, b) == IF a > b THEN a ELSE b
+RECURSIVE MaxOver(_, _)
+MaxOver(f, n) == IF n = 0 THEN 0 ELSE Max2(f[n], MaxOver(f, n - 1))
+RECURSIVE VDepth(_)
+VDepth(x) ==
+    CASE x.k = "list" -> 1 + MaxOver([i \in 1..Len(x.v) |-> VDepth(x.v[i])], Len(x.v))
+      [] x.k = "map" -> 1 + MaxOver([i \in 1..Len(x.v) |-> Max2(VDepth(x.v[i][1]), VDepth(x.v[i][2]))], Len(x.v))
+      [] x.k = "struct" -> 1 + MaxOver([i \in 1..Len(x.v) |-> IF x.v[i][2].some THEN VDepth(x.v[i][2].v) ELSE 0], Len(x.v))
+      [] OTHER -> 1
 
 \* ------------------------------------------------------------------ reflect.Kind (any.go compares kinds)
 KindOf(x) ==
@@ -158,6 +185,7 @@ KindOf(x) ==
       [] x.k = "list" -> "slice"
       [] x.k = "map" -> "map"
       [] x.k = "re" -> "ptr"
+      [] x.k = "struct" -> "struct"
       [] x.k = "junk" -> (CASE x.v \in {"tag", "bigint", "time", "struct"} -> "struct"
                             [] x.v \in {"ptr", "nilptr", "nilre"} -> "ptr"
                             [] x.v = "func" -> "func"
@@ -185,7 +213,7 @@ CBORable(w) ==
     CASE w.k \in {"nil", "bool", "int", "float", "fspecial", "str"} -> TRUE
       [] w.k = "list" -> \A i \in 1..Len(w.v) : CBORable(w.v[i])
       [] w.k = "map" -> \A i \in 1..Len(w.v) : w.v[i][1].k \in {"bool", "int", "float", "str"} /\ CBORable(w.v[i][1]) /\ CBORable(w.v[i][2])
-      [] w.k \in {"re", "junk"} -> FALSE
+      [] w.k \in {"re", "junk", "struct"} -> FALSE
 
 \* JSON: numbers come back as float64, maps as map[string]any; map keys must be strings or
 \* integers (encoding/json refuses map[any]any); NaN/Inf and byte strings do not travel as such
@@ -198,7 +226,7 @@ JSONable(w) ==
       [] w.k = "list" -> w.rep # "bytes" /\ \A i \in 1..Len(w.v) : JSONable(w.v[i])
       [] w.k = "map" -> /\ w.rep # "any_any"
                         /\ \A i \in 1..Len(w.v) : w.v[i][1].k = "str" /\ w.v[i][1].rep = "string" /\ JSONable(w.v[i][2])
-      [] w.k \in {"re", "junk"} -> FALSE
+      [] w.k \in {"re", "junk", "struct"} -> FALSE
 RECURSIVE JSON(_)
 JSON(w) ==
     CASE w.k = "nil" -> Nil
@@ -220,7 +248,7 @@ YAMLable(w) ==
       [] w.k = "float" -> ~IsEdge(w.v \div 2)
       [] w.k = "list" -> w.rep # "bytes" /\ \A i \in 1..Len(w.v) : YAMLable(w.v[i])
       [] w.k = "map" -> \A i \in 1..Len(w.v) : w.v[i][1].k \in {"str", "int", "bool"} /\ YAMLable(w.v[i][1]) /\ YAMLable(w.v[i][2])
-      [] w.k \in {"re", "junk"} -> FALSE
+      [] w.k \in {"re", "junk", "struct"} -> FALSE
 RECURSIVE YAML(_)
 YAML(w) ==
     CASE w.k = "nil" -> Nil
